@@ -7,7 +7,7 @@ batch's updates were applied: `d = 2 x` holds in every emitted row, `e = d + 1` 
 the first reads what the first wrote)."""
 import itertools
 
-from vivarium.core.process import Process
+from vivarium.core.process import Process, Step
 
 _ids = itertools.count()
 
@@ -45,15 +45,27 @@ class PlusOne(Process):
         return {'vars': {'e': states['vars']['d'] + 1}}
 
 
+class PlusOneStep(Step):
+    """the same as a Step listed in the `steps` dictionary without a flow entry (it runs as a legacy deriver, after
+    the derivers given among the processes: processes are registered first)"""
+    def ports_schema(self):
+        return {'vars': {'d': {'_default': 0}, 'e': {'_default': 0, '_updater': 'set', '_emit': True}}}
+
+    def next_update(self, timestep, states):
+        return {'vars': {'e': states['vars']['d'] + 1}}
+
+
 def gen_case(rng):
     return {'kind': 'legacypar', 'parallel': rng.choice([[], ['doubler'], ['plusone'], ['doubler', 'plusone']]),
-            'ticks': rng.choice([2, 3, 4]), 'grow_first': rng.random() < 0.5}
+            'ticks': rng.choice([2, 3, 4]), 'grow_first': rng.random() < 0.5, 'split': rng.random() < 0.3}
 
 
 def corpus():
     return [{'kind': 'legacypar', 'parallel': [], 'ticks': 3, 'grow_first': True},
             {'kind': 'legacypar', 'parallel': ['doubler'], 'ticks': 3, 'grow_first': True},
-            {'kind': 'legacypar', 'parallel': ['doubler', 'plusone'], 'ticks': 2, 'grow_first': False}]
+            {'kind': 'legacypar', 'parallel': ['doubler', 'plusone'], 'ticks': 2, 'grow_first': False},
+            # the second deriver is a Step in the `steps` dictionary (no flow entry), the first one among the processes
+            {'kind': 'legacypar', 'parallel': [], 'ticks': 3, 'grow_first': True, 'split': True}]
 
 
 def run_impl(case):
@@ -66,10 +78,14 @@ def run_impl(case):
         par = lambda n: {'_parallel': True} if n in case['parallel'] else {}   # noqa: E731
         procs = {'grow': Grow()} if case['grow_first'] else {}
         procs['doubler'] = Doubler(par('doubler'))
-        procs['plusone'] = PlusOne(par('plusone'))
+        steps = {}
+        if case.get('split'):
+            steps['plusone'] = PlusOneStep(par('plusone'))
+        else:
+            procs['plusone'] = PlusOne(par('plusone'))
         if not case['grow_first']:
             procs['grow'] = Grow()
-        eng = Engine(processes=procs, topology={n: {'vars': ('vars',)} for n in procs},
+        eng = Engine(processes=procs, steps=steps, topology={n: {'vars': ('vars',)} for n in list(procs) + list(steps)},
                      display_info=False, progress_bar=False)
         eng.update(case['ticks'])
         obs['rows'] = [[float(t), dict(r.get('vars') or {})] for t, r in sorted(eng.emitter.get_data().items())]
